@@ -8,4 +8,20 @@ PROPS = {
         explanation='inductive proof (loop invariant with ghost cover indices) of the ISI kernel against the C01 definition, '
                     'Python fallback and extracted Cython text',
     ),
+    'C02': dict(
+        title='SPIKE-profile equals the SPIKE-distance definition',
+        level='other',
+        groups=dict(quick=['gmd_py.P', 'gmd_prof_pyx.P', 'dist_at_t_py.P', 'dist_at_t_prof_pyx.P', 'spike_py.B', 'spike_pyx.B'],
+                    thorough=['gmd_py.P', 'gmd_prof_pyx.P', 'dist_at_t_py.P', 'dist_at_t_prof_pyx.P', 'spike_py.B', 'spike_pyx.B']),
+        explanation='helpers get_min_dist / dist_at_t proved inductively (P); the SPIKE scan itself is checked in bounded mode against '
+                    'the C02 definition with the helpers replaced by their contracts',
+    ),
+    'C16': dict(
+        title='max_tau is an upper bound on the coincidence window',
+        level='other',
+        groups=dict(quick=['get_tau_py.P', 'get_tau_pyx.P', 'sync_py.B', 'order_py.B', 'dir_py.B', 'single_py.B'],
+                    thorough=['get_tau_py.P', 'get_tau_pyx.P', 'sync_py.B', 'order_py.B', 'dir_py.B', 'single_py.B']),
+        explanation='window routine proved (P, loop-free) to return the C03 window and never more than half the limit it is given; '
+                    'scan kernels bounded',
+    ),
 }
